@@ -116,8 +116,17 @@ func runC17(t *testing.T, seed uint64, m *Mask) *Report {
 			}
 		} else {
 			var ca *simnet.Conn
-			sess, _, ca, _ = e.ServePair(cli, srv, pf, pf)
+			var ssrv erpc.Session
+			sess, ssrv, ca, _ = e.ServePair(cli, srv, pf, pf)
 			conns = append(conns, ca)
+			// applications (and the heartbeat / overload plugins) keep data of their own in the session swap
+			if e.Gen.Chance(0.4) {
+				ssrv.Swap().Store("user", "alice")
+				e.Probe("c17-session-swap-in-use")
+			}
+		}
+		if e.Gen.Chance(0.4) {
+			sess.Swap().Store("user", "bob")
 		}
 		run := func(c *c17Op) {
 			op := c.op
@@ -141,8 +150,20 @@ func runC17(t *testing.T, seed uint64, m *Mask) *Report {
 				return
 			}
 			res := new(world.Payload)
-			cmd := sess.Call(rt.Echo, arg, res, st...)
-			simrt.Yield()
+			var cmd erpc.CallCmd
+			if op.Idx%7 == 5 && !redial {
+				// a caller that does not want the result passes nil: the call must still complete
+				cmd = sess.Call(rt.Echo, arg, nil, st...)
+				simrt.Yield()
+				op.Done, op.OK = true, cmd.Status().OK()
+				if op.OK {
+					*res = world.Payload{Tag: op.Tag, Data: world.ExpectData(op), N: op.N + 1} // nothing to compare
+				}
+				e.Probe("c17-call-with-nil-result")
+			} else {
+				cmd = sess.Call(rt.Echo, arg, res, st...)
+				simrt.Yield()
+			}
 			stt := cmd.Status()
 			op.Done, op.OK = true, stt.OK()
 			op.Result, op.ResultStr = *res, res.String()
